@@ -134,6 +134,7 @@ func run(c *vc.Ctx) {
 			}
 			sec := fmt.Sprintf("%s %s-granularity schedules", sc.id, gran)
 			secOut := fmt.Sprintf("%s observed outcomes", sc.id)
+			secCont := fmt.Sprintf("%s contention", sc.id)
 			states := map[uint64]struct{}{}
 			done := -1
 			for B := 0; B <= maxB && !violated; B++ {
@@ -183,6 +184,11 @@ func run(c *vc.Ctx) {
 						label = "as sequential order " + ref.LabelOf[lastO.Key()]
 					}
 					c.Outcome(secOut, label)
+					if ex.Contended > 0 {
+						c.Outcome(secCont, "some thread had to wait for a lock / a running Once held by another thread")
+					} else {
+						c.Outcome(secCont, "no thread ever waited")
+					}
 					c.Distinct(fmt.Sprintf("%s|%s|%d|%s", sc.id, gran, ex.Preemptions, lastO.Key()))
 					if key != "" {
 						violated = true
@@ -228,6 +234,9 @@ func run(c *vc.Ctx) {
 		}
 	}
 	c.Extra("scenarios", scInfo)
+	if c.Shard == 0 {
+		recordRacePass(c)
+	}
 }
 
 func replay(c *vc.Ctx, raw json.RawMessage) string {
@@ -237,6 +246,9 @@ func replay(c *vc.Ctx, raw json.RawMessage) string {
 	}
 	if err := json.Unmarshal(raw, &doc); err != nil {
 		return err.Error()
+	}
+	if strings.HasPrefix(doc.Section, "free-running") {
+		return "this class comes from the free-running -race pass (dynamic detection); it has no schedule to replay. Re-run /verif/run_c20.sh quick. Recorded report:\n" + string(raw)
 	}
 	e, err := newEnv(true)
 	if err != nil {
